@@ -286,7 +286,8 @@ Init == /\ sim = InitState /\ evMeas = [q \in {} |-> FALSE] /\ last = [q \in {} 
 
 D1 == DrawNums
 D2 == {<<a,b>> : a \in DrawNums, b \in DrawNums}
-GateSet == {<<"h",0>>, <<"x",0>>, <<"y",0>>, <<"z",0>>, <<"rx",1>>, <<"ry",3>>, <<"rz",2>>, <<"rz",5>>, <<"rx",6>>, <<"ry",1>>}
+\* (k = 0 with no extra turns is a rotation by exactly 0.0: it changes nothing, and is refused on a measured qubit like any gate)
+GateSet == {<<"h",0>>, <<"x",0>>, <<"y",0>>, <<"z",0>>, <<"rx",1>>, <<"ry",3>>, <<"rz",2>>, <<"rz",5>>, <<"rx",6>>, <<"ry",1>>, <<"rx",0>>, <<"ry",0>>, <<"rz",0>>}
 Turns   == {0, 1, -1, 1600}
 Paths == {"direct","fn","static","own"}
 
